@@ -102,8 +102,15 @@ class Gen:
         self.no_calls = 0
 
     def fresh(self, p):
+        """names restart in every function (so one spelling is bound to different kinds of entity in different
+        functions); `let`, `var` and pointer-lets share the prefix x.  Never spells a predeclared name."""
         self.uid += 1
-        return "%s_%d" % (p, self.uid)    # never spells a predeclared name such as i32
+        if p in ("l", "v"):
+            p = "x"
+        return "%s_%d" % (p, self.uid)
+
+    def new_function_scope(self):
+        self.uid = 0
 
     # ---------------------------------------------------------------- types
     def scalar(self, allow_bool=False):
@@ -407,6 +414,8 @@ class Gen:
         rng = self.rng
         d = self.o["max_depth"]
         choices = ["let", "var", "assign", "assign", "assign", "compound", "incr"]
+        if self.o["pointers"] and any(k == "var" for _n, (_t, k) in env.items()):
+            choices.append("ptrlet")
         if depth > 0:
             choices += ["if", "if", "switch", "block"]
             if self.o["loops"]:
@@ -424,6 +433,16 @@ class Gen:
             s = {"s": "let", "n": n, "t": t, "e": self.expr(env, t, d - 1)}
             env[n] = (t, "let")
             return [s]
+        if c == "ptrlet":
+            # let p = &v;  (pointer to a local variable or to one of its components)
+            cands = [(e, t) for e, t in self.lvalues(env) if self._root_kind(env, e) == "var" and e.get("e") != "swz"
+                     and not (e.get("e") == "idx" and is_vec(self._type_of_base(env, e)))]
+            if not cands:
+                return []
+            e, t = rng.choice(cands)
+            n = self.fresh("l")
+            env[n] = (["ptr", "function", t], "let")
+            return [{"s": "let", "n": n, "t": ["ptr", "function", t], "e": {"e": "addr", "a": e}}]
         if c == "var":
             t = self.value_type()
             n = self.fresh("v")
@@ -537,6 +556,34 @@ class Gen:
                      "then": [{"s": "return", "e": self.expr(env, ret_t, d - 2) if ret_t is not None else None}], "else": []}]
         return []
 
+    def _type_of_base(self, env, e):
+        """type of the base expression of an index/member access path (None when unknown)"""
+        b = e.get("a")
+        path = []
+        while b is not None and b.get("e") in ("idx", "mem", "deref"):
+            path.append(b)
+            b = b.get("a")
+        if b is None or b.get("e") != "var":
+            return None
+        t = env.get(b["n"], (None, None))[0]
+        for step in reversed(path):
+            if t is None:
+                return None
+            if step["e"] == "deref":
+                t = t[2] if isinstance(t, list) and t[0] == "ptr" else None
+            elif step["e"] == "mem":
+                t = self.struct_def(t[1])["members"][step["m"]]["t"] if isinstance(t, list) and t[0] == "struct" else None
+            else:
+                if isinstance(t, list) and t[0] == "arr":
+                    t = t[2]
+                elif isinstance(t, list) and t[0] == "mat":
+                    t = ["vec", t[2], "f32"]
+                elif is_vec(t):
+                    t = t[2]
+                else:
+                    t = None
+        return t
+
     def _protect_counter(self, body, i):
         """the loop counter must not be assigned in the body: filter such statements"""
         def touches(s):
@@ -604,6 +651,7 @@ class Gen:
         for k in range(rng.range(0, self.o["n_helpers"])):
             self.helper(env, k)
         # entry point
+        self.new_function_scope()
         menv = dict(env)
         menv["gid"] = (["vec", 3, "u32"], "let")
         self._idx_sources = [{"e": "swz", "a": {"e": "var", "n": "gid"}, "p": [0]}, lit("u32", rng.below(16))]
@@ -651,6 +699,7 @@ class Gen:
     def helper(self, env, k):
         rng = self.rng
         name = "h%d" % k
+        self.new_function_scope()
         params = []
         fenv = {n: v for n, v in env.items()}
         for i in range(rng.range(0, 3)):
